@@ -38,6 +38,24 @@ def profile_diff(c):
                                "stage": "%s:?" % o, "idx": int(i), "case": {"stage_ord": o, "idx": i}, "profile": "mon-rel"}
 
 CONFIG = {
+    "C14": {
+        "profiles": BOTH,
+        "rule": "one evaluation = one conversion call, law instance, round trip or f-string; distinct non-trivial = distinct (constructor, source value) pairs, "
+                "round-trip operands and f-strings with at least one embedded expression",
+        "floors": {"quick": {"_evaluations": 300000, "fstring/expect-value": 2000, "fstring/expect-failure": 2000, "law/idempotent": 1000},
+                   "thorough": {"_evaluations": 3000000}},
+        "assumptions": ASSUME_COMMON + [
+            "double -> integer outside the target range / NaN: the saturated value or an error; uint(d) for d <= -1: 0 or an error",
+            "which strings int()/uint()/double() accept beyond plain decimal is not asserted, only that an accepted string converts to the number it spells",
+            "string(bool|null|type|list|map), bool(non-string) are not asserted here (truthiness is C05)"],
+        "technique": "runtime monitoring with a conversion-table oracle, round-trip and idempotence laws, literal-vs-variable differential, and differential "
+                     "decomposition of f-strings (each segment's string(e) evaluated separately through the API)",
+        "level_text": "Every pool value (all types, boundaries) under every constructor in variable and literal form is compared with the conversion table of the statement; "
+                      "T(T(x))==T(x) and type(T(x))==T are checked wherever T(x) evaluates; random numeric strings (signs, blanks, exponents, non-ASCII digits), random doubles "
+                      "and 64-bit integers; round trips int/uint/double/bytes/timestamp through string; f-strings of 0..6 segments against the concatenation of separately "
+                      "evaluated parts, failing when a part has no string form. Exploration only.",
+        "level_note": "trusts the harness conversion table (direct transcription of the statement) and host float parsing/printing",
+    },
     "C13": {
         "profiles": BOTH,
         "rule": "one evaluation = one literal compiled and evaluated (or rejected); distinct non-trivial = distinct literal texts",
